@@ -26,15 +26,17 @@ from sx import Sym, Str
 
 PROP = "C10"
 PROP_FILE = "C10_EntJson"
-THEOREMS = ["c10_value_rt", "c10_reserved", "c10_context_rt", "c10_context_rt_refuted", "c10_implicit_explicit_partial"]
+THEOREMS = ["c10_value_rt", "c10_reserved", "c10_context_rt", "c10_context_rt_refuted", "c10_context_rt_fixed",
+            "c10_entity_rt", "c10_implicit_explicit"]
 LEVEL = "proof" if THEOREMS else "exploration"
 
 MANIFEST = {
     "text": "Gallina transcription of the entity/context JSON layer (CedarValueJson::from_expr/from_value with the "
             "reserved-key refusal, the untagged deserialisation of CedarValueJson / EntityUidJson / ExtnValueJson, "
-            "ValueParser::val_into_restricted_expr with its type-directed cases and fall-backs, EntityJson) on JSON "
-            "trees; theorems: value round trip, refusal iff a reserved key occurs, implicit forms parse like the explicit "
-            "form; tied to /repo by differential execution (serialised tree, parse result on implicit/explicit variants "
+            "ValueParser::val_into_restricted_expr with its type-directed cases and fall-backs, EntityJson / "
+            "parse_ejson, the store constructor with TC and schema actions) on JSON trees; theorems: value, context and "
+            "entity round trip, refusal iff a reserved key occurs, every per-node implicit/explicit variant (any depth "
+            "inside sets and closed records) parses like the explicit form; tied to /repo by differential execution (serialised tree, parse result on implicit/explicit variants "
             "and mutated documents) and an implementation-level round-trip / variant-agreement oracle.",
     "technique": "proof (Coq, structural induction on values and types) + correspondence by differential execution + "
                  "round-trip / metamorphic oracle on the implementation",
@@ -962,7 +964,7 @@ def gen_cases(rng, tier):
                 cases.append({"kind": "variants_context", "stream": "schema", "sid": sid, "pairs": pairs, "schema": js,
                               "action": au, "modes": modes, "cmds": cmds, "ctx_type": rc})
     # ---- malformed stream: mutated documents, value path vs text path, without and with schema
-    seeds = [c for c in cases if c["kind"] in ("variants_entities", "variants_context")]
+    seeds = [c for c in cases if c["kind"] in ("variants_entities", "variants_entity", "variants_context")]
     nmut = 1500 if quick else 40000
     for i in range(nmut):
         c = rng.choice(seeds)
